@@ -12,7 +12,10 @@ from .report import VERIF
 
 NOT_APPLICABLE = {
     "C05": "MPO bond-channel bookkeeping depends on the runtime sparsity pattern of the interaction matrix "
-           "(data-dependent shapes and mask pop-counts); deciding it statically needs enumeration or a solver",
+           "(data-dependent shapes and mask pop-counts); deciding it statically needs enumeration or a solver. "
+           "The parts of it that are in the shape of the code - the single-site term update_H writes (formula "
+           "identity against Pulser's drive Hamiltonian), its slots, the identity channels of the ten factor "
+           "builders and the make_H bindings - are obligations of C02/C04/C17 (HAM-mps)",
     "C28": "norm/energy conservation are numerical consequences of unitarity and symmetric splitting; the "
            "structural prerequisites (TDVP coefficients, -i*dt exponent, is_hermitian) are obligations of C01/C02",
     "C29": "metamorphic equalities between the numerical results of two runs on transformed inputs; no "
